@@ -122,6 +122,59 @@ CLAIMS = {
         note=COMMON_NOTE + 'The per-class allow-list of fields that need no reset (tables of bound methods, service objects, fields written before every read) is part of the translator and is trusted; that execution does not alter the program holds in the model by construction (the image is an argument of the step function) and is checked on the implementation per run.',
         technique='Coq proof over a reset model generated from the source (field table by translator); history-based differential runs',
         design='DESIGN.md 7 C17'),
+    'C07': dict(
+        text=('units.py, param_helper.py and colorsys are translated to Gallina on every run, once over binary64 (PrimFloat, bit-exact with CPython) and '
+              'once over exact rationals. Theorems: for EVERY binary64 input (NaN, infinities, negative, huge) the clamps return integers inside '
+              '0..65535 / 0..2^32-1, so whatever path a colour, power or duration takes to the device (single light, group, location, all, zones, '
+              'matrix cells) it is transmitted in range; over Q the transmitted value is the nearest integer of the documented formula (hue*65536/360 '
+              'mod 65536, pct*65535/100, seconds*1000, raw passthrough); all 65 536 raw values round-trip raw->logical->raw exactly in binary64 '
+              '(exhaustive reflection); hsv<->rgb round trip over Q. Per run: translated functions vs the real ones on boundary and random inputs; '
+              'every device path of the real VM vs the specification.'),
+        note=COMMON_NOTE + 'The gap between binary64 and exact arithmetic before the final round() is not closed by a theorem; it is measured on every run (results needing the 1e-9 tie tolerance are counted).',
+        technique='Coq proof over translated definitions (PrimFloat range lemmas, exact-rational nearest-integer lemmas, exhaustive 65 536-value reflection); correspondence and oracle runs',
+        design='DESIGN.md 7 C07'),
+    'C08': dict(
+        text=('Model of JobControl at shared-access granularity (every read / write of the queue, the active job, the background list and the lock is '
+              'one step of one thread). Theorems for EVERY assignment of job bodies (finish / raise / run until stopped), every list of client programs '
+              '(any number of threads calling add_job, insert_job, spawn_job, clear_queue, stop, queries) and EVERY schedule: at most one queued job '
+              'runs at a time; jobs start in queue order; each job starts at most once and, when the system is quiescent, exactly once unless '
+              'cleared; a raising job does not block its successors; no deadlock; termination measure; background jobs are visible exactly while they '
+              'run. The pinned is_running double read is refuted by a concrete schedule. Per run: the real JobControl under a deterministic '
+              'thread scheduler, every history accepted by the proved-sound oracle.'),
+        note=COMMON_NOTE + 'Thread interleavings below the granularity of one shared access (the GIL makes attribute reads / writes atomic) and the 1 s lock time-out (modelled as blocking) are outside the model.',
+        technique='Coq proof: invariants by induction over all schedules of an interleaving model; oracle soundness; schedule-controlled runs of the real threads',
+        design='DESIGN.md 7 C08'),
+    'C09': dict(
+        text=('Interleaving model of requester, job thread and clock thread of one machine in the order the Python performs its shared accesses; '
+              'scripts are arbitrary instruction streams with delays and time-of-day waits. Theorems for every script, every schedule and every point '
+              'at which stop() is called: the stop flag sticks until the run has ended; the job thread ends within a bounded number of its own steps '
+              'and is never blocked; a stop belongs to one run (the same job started again runs); stop-all leaves the queue empty and the next job '
+              'starts. The pinned defects (early stop lost, time-at loop unstoppable, lost wake-up, flag overwritten by the clock thread, late stop '
+              'poisoning the next run) are each refuted by a concrete schedule of the pinned variant. Source texts tied by the translator; the real '
+              'Machine / Clock / Agent run under a deterministic scheduler on generated schedules.'),
+        note=COMMON_NOTE + 'Wall-clock promptness (a tick is 0.1 s) is outside the model: prompt = bounded number of job-thread steps after the request; OS scheduling fairness is assumed.',
+        technique='Coq proof over an interleaving model (all schedules), refutation witnesses for the pinned variants; schedule-controlled differential runs',
+        design='DESIGN.md 7 C09'),
+    'C10': dict(
+        text=('Model of Clock (reset / et / pause_for / wait_until) and Machine._wait as seen from the script thread, over exact rational time, with the '
+              'rest of the world (clock readings, ticks, spurious wake-ups) an arbitrary list of observations. Theorems for every list of delays and '
+              'every observation list: a command is never issued before its cue (sum of the delays since the last restart); the wait returns at the '
+              'first tick at or after the cue, so within one tick; lateness is not accumulated; a script behind schedule does not wait; a time-of-day '
+              'wait restarts the time line; zero never blocks; raw units are milliseconds and logical units seconds. Source texts tied by the '
+              'translator; the real Clock and Machine are run against a simulated time source.'),
+        note=COMMON_NOTE + 'Real wall-clock behaviour (time.monotonic, thread wake-up latency) is replaced by the observation list; binary64 rounding of the time sums is outside the model (Q).',
+        technique='Coq proof over an observation-list model with exact rational time; shape-tied model; simulated-clock differential runs',
+        design='DESIGN.md 7 C10'),
+    'C14': dict(
+        text=('Model of Registers and _switch_unit_mode over the translated conversions. Theorems: switching to the current mode is the identity; a '
+              'switch changes only the documented registers (kelvin, power, name, operands ... untouched: frame); over binary64 a switch to raw '
+              'preserves what is transmitted, and for all 65 536 raw values of every register raw->logical->raw transmission is unchanged '
+              '(exhaustive reflection); over Q any chain of switches of any length preserves the transmitted colour, duration and pending delay. '
+              'Per run: the real Machine executes scripts with unit switches between settings and the transmitted values are compared with the '
+              'single-mode script.'),
+        note=COMMON_NOTE + 'Over binary64 the logical->raw->logical direction is covered by the sweep and the runs, not by a theorem for every float (values that are not images of raw integers move by at most one unit, measured per run).',
+        technique='Coq proof over translated definitions (frame lemma, exhaustive reflection, exact-rational chain induction); correspondence runs',
+        design='DESIGN.md 7 C14'),
     'C20': dict(
         text=('Model of WebApp/FrontEnd over an abstract job controller with URL resolution in blueprint order; theorems for all manifests and '
               'all request/completion histories: only manifest-listed files are ever handed to the controller, under the entry\'s path; an '
